@@ -273,3 +273,67 @@ META["C07"] = {
     "LEVEL_NOTE": "Trusted: sim/refmodel.py; kappa-aware tolerance; ill-conditioned attempts are skipped and counted.",
     "TECHNIQUE": "deterministic simulation: in-run invariant monitor on every attempt of seeded adaptive runs with injected rejections/jitter, reference-model oracle",
 }
+
+META["C01"] = {
+    "LEVEL": "exploration",
+    "TIERS": {"quick": 192, "thorough": 8000},
+    "WALLCAP": {"quick": 420, "thorough": 5400},
+    "RULE": ("One evaluation = one seeded scenario. adaptive: a natural run of the real solver/estimator/controller/loop on an "
+             "IVP with known solution (12 families incl. non-autonomous, second-order, |u| far from 1, 30-digit references for "
+             "polynomial systems), tolerances 1e-9..1e-2 with atol != rtol, all factorisations x calibrations x strategies x "
+             "TS0/TS1 x q<=6, with injected spurious rejections, proposal jitter, checkpoints placed relative to the probe run's "
+             "step ends, aligned final times (incl. tiny clipped remainders) and dt0 extremes / dt0 helpers; oracle "
+             "|error| <= 10 (atol + rtol|u|) at every requested time. fixed: grids h, h/2, h/4 (uniform or perturbed), observed "
+             "order >= q+1-0.5 while errors are above rounding. Distinct = distinct (cell, history digest, tolerance)."),
+    "COMPONENTS": {"real": ["everything: solver, strategies, state-space models, error_residual_std, controllers, "
+                            "solve_adaptive_save_at / terminal_values / save_every_step, solve_fixed_grid, dt0 helpers"],
+                   "stub": [], "seam": ["recording/faulting proxies around estimator and controller", "probdiffeq.backend.flow (Python-stepped)"]},
+    "PROBES": ["clipped_or_burst_step_ratio_below_1e-2", "checkpoints", "dt0_from_helper", "atol_ne_rtol", "fixed_grid_triples"],
+    "ASSUMPTIONS": ["K = 10 (never below 5x the largest ratio observed on the repaired tree in the calibration batch)",
+                    "<= 600 attempts per run (more: inconclusive_budget)", "Lipschitz x horizon <= 3",
+                    "end-to-end safety net: notices errors of about an order of magnitude; sharp detectors are C02, C06, C07"],
+    "LEVEL_TEXT": "Seeded end-to-end exploration with fault injection on IVPs with independently known solutions. Sampling, not proof.",
+    "LEVEL_NOTE": "Trusted: closed-form solutions / mp.odefun at 30 digits (sim/worlds.py). Known finding: tiny accepted steps "
+                  "(ratio < 1e-2 to the predecessor) with zeroth-order linearisation, see known_findings.json.",
+    "TECHNIQUE": "deterministic simulation with fault injection (spurious rejections, jitter, checkpoint/final-time alignment, dt0 extremes) against known ODE solutions",
+}
+
+META["C15"] = {
+    "LEVEL": "exploration",
+    "TIERS": {"quick": 64, "thorough": 2500},
+    "WALLCAP": {"quick": 480, "thorough": 5400},
+    "RULE": ("One evaluation = one seeded scenario. schedule: the same solve executed Python-stepped (oracle), lax-eager, jitted and "
+             "inside a vmap batch of 2-5 members whose position, tolerances (1e-9..1e-2), final times and initial values the seed "
+             "decides (one member typically needs >= 5x the steps of the others); adaptive and fixed-grid routines, filter and "
+             "smoothers; values (1e-9), finiteness and step counts must equal the solo stepped run. structure: random nested "
+             "dict/tuple/list/namedtuple states with leaves of rank 0-3 vs the flattened problem (same numbers, caller's structure, "
+             "leading time axis), permutation of <= 4 components. Distinct = distinct (cell, batch composition / tree structure)."),
+    "COMPONENTS": {"real": ["everything under jax.jit / jax.vmap / eager lax control flow", "TreeFlatten classes of the three factorisations"],
+                   "stub": [], "seam": ["execution mode chosen by the seed: stepped (flow seam) / lax-eager / jit / vmap batch composition"]},
+    "PROBES": ["batch_step_ratio>=5", "bitwise_vmap", "bitwise_jit", "bitwise_lax-eager", "tree_vs_flat_compared", "permutation_compared"],
+    "ASSUMPTIONS": ["oracle = the solo Python-stepped run (its faithfulness to the compiled loop is itself what the comparison tests)",
+                    "a permutation run whose step counts differ is inconclusive (margin rule), never a violation"],
+    "LEVEL_TEXT": "Seeded exploration of execution schedules (stepped / lax / jit / vmap batch composition) and state structures. "
+                  "Sampling, not proof.",
+    "LEVEL_NOTE": "Trusted: JAX transformations themselves. vmap batches <= 5, state dimension <= 5.",
+    "TECHNIQUE": "deterministic simulation of execution schedules: seeded jit/vmap batch composition vs a solo Python-stepped run; pytree/permutation twins",
+}
+
+META["C19"] = {
+    "LEVEL": "exploration",
+    "TIERS": {"quick": 1600, "thorough": 60000},
+    "WALLCAP": {"quick": 300, "thorough": 3000},
+    "RULE": ("One evaluation = one seeded constrained least-squares problem (affine or mildly nonlinear polynomial constraint with "
+             "1..D-1 rows, D<=10, random mean, Cholesky factor incl. zero columns / low rank, tolerance 1e-4..1e-12 or unreachable, "
+             "budget 1..50) run on the loop seam so every iteration is observed. Oracles: reported iters == observed iterations, "
+             "final_constraint / final_increment truthful, three-way termination (no early stop, no needless iteration), "
+             "displacement in range(C J^T), affine => conditional mean after one iteration, MAP Taylor point. Distinct = distinct "
+             "problem; non-trivial = at least one iteration ran."),
+    "COMPONENTS": {"real": ["lstsq_constrained_gauss_newton", "taylor_point_maximum_a_posteriori", "linalg.lstsq_svd"],
+                   "stub": [], "seam": ["while_loop= constructor argument (loop observed per iteration)"]},
+    "PROBES": ["budget_exhausted", "optimality_checked", "affine_conditional_mean_checked", "taylor_point_checked", "singular_weight"],
+    "ASSUMPTIONS": ["numpy pinv / lstsq as the independent linear algebra of the oracle"],
+    "LEVEL_TEXT": "Seeded exploration of problems and iteration budgets with the iteration loop owned by the simulator.",
+    "LEVEL_NOTE": "Trusted: numpy linear algebra. The exact-filter-update clause is checked through the MAP Taylor point only.",
+    "TECHNIQUE": "deterministic simulation on the loop seam: per-iteration observation, budget-exhaustion and singular-weight faults, conditional-mean oracle",
+}
